@@ -267,6 +267,17 @@ def deposit (e : Env) (s : State) (from_ : Addr) (coins : Coins) : Except Err St
       let s2 := setProvider s1 { p with collateral := p.collateral + amount }
       .ok { s2 with totalCollateral := s2.totalCollateral + amount }
 
+/-- `Keeper.DepositCollateral` as the message server calls it: an existing provider's recorded stake is first brought up to
+    date (`UpdateDelegationAmount`: a slash changes what the delegations are worth without any staking hook), then the
+    deposit is checked against it. In terms of the operations of the model: `stakingChanged` followed by `deposit`. -/
+def depositMsg (e : Env) (s : State) (from_ : Addr) (coins : Coins) : Except Err State :=
+  if !Coins.isAllPositive coins then err "basic:shield:invalid-coins"
+  else match findProvider s from_ with
+    | none => deposit e s from_ coins
+    | some _ => match stakingChanged e s from_ with
+      | .error x => .error x
+      | .ok s1 => deposit e s1 from_ coins
+
 /-- `MsgWithdrawCollateral` -/
 def withdraw (e : Env) (s : State) (from_ : Addr) (coins : Coins) : Except Err State :=
   if !Coins.isAllPositive coins then err "basic:shield:invalid-coins"
